@@ -595,6 +595,32 @@ func Run(tier string) int {
 	}
 	r.Dim("nesting_depths", []int{1, 2, 17, 100, 200, 250, 254, 255})
 
+	// (g) several long strings in one container (scratch buffers of the string
+	// readers are longer-lived than one string)
+	{
+		mk := func(n int, b byte) pdf.String {
+			x := make([]byte, n)
+			for i := range x {
+				x[i] = b + byte(i%7)
+			}
+			return pdf.String(x)
+		}
+		lens := []int{1, 63, 64, 65, 127, 200, 1100}
+		var longs []pdf.Object
+		for _, n := range lens {
+			longs = append(longs, mk(n, 0x80), mk(n, 'a'), mk(n, '('))
+		}
+		r.Dim("long_strings", len(longs))
+		r.Par(len(longs)*len(longs), func(ij int) {
+			i, j := ij/len(longs), ij%len(longs)
+			for _, opt := range plainPretty {
+				rn.one("long-strings", opt, hx.Clone(longs[i]), hx.Clone(longs[j]))
+				rn.one("long-strings", opt, pdf.Dict{"A": hx.Clone(longs[i]), "B": hx.Clone(longs[j]), "C": hx.Clone(longs[i])})
+			}
+			r.DistinctS(fmt.Sprintf("ls%d,%d", i, j))
+		})
+	}
+
 	// (f) reals and integers by digit structure: every number of significant
 	// digits 1..19 at every position of the decimal point, for digit strings
 	// that sit on the rounding boundaries of float64 parsing
